@@ -96,8 +96,10 @@ class FrameNcp:
         return self.table_version >= 14
 
     # -- wiring -----------------------------------------------------------------------------
+    think_time = 0.0  # how long the NCP takes to execute a command before it answers
+
     def _send(self, data: bytes, delay: float = 0.0):
-        self.loop.io_at(self.loop.time() + delay, self._deliver_now, bytes(data))
+        self.loop.io_at(self.loop.time() + delay + self.think_time, self._deliver_now, bytes(data))
 
     def _deliver_now(self, data):
         self.trace.append(("ncp_tx", self.loop.time(), data))
